@@ -26,6 +26,7 @@ type StyleOpts struct {
 	DocStart       bool // leading '---'
 	QuotedKeys     bool // quote mapping keys sometimes
 	BlockNames     bool // block scalars for alert names/for values as well
+	HeaderComment  bool // comment after a block scalar header: "expr: | # text" (class C06-K5)
 	ShallowCont    bool // continuation lines indented by just one column more than the key (class C06-K4)
 }
 
@@ -397,9 +398,17 @@ func (s *Styler) Value(v string, kind string) *Node {
 		cls += "/ml"
 	}
 	s.Used[cls]++
-	if o.Comments && len(n.Lines) == 1 && (n.Style != Plain || !strings.Contains(v, "#")) && rapid.IntRange(0, 7).Draw(t, s.lbl("lc")) == 0 {
+	if n.ContIndent == 1 && n.IndentInd == 0 && (len(n.Lines) > 1 || n.Style == Literal || n.Style == Folded) {
+		s.Used["shallow-cont"]++
+	}
+	isBlock := n.Style == Literal || n.Style == Folded
+	if o.Comments && (len(n.Lines) == 1 || isBlock) && (!isBlock || o.HeaderComment) && rapid.IntRange(0, 7).Draw(t, s.lbl("lc")) == 0 {
 		n.LineComment = "note"
-		s.Used["line-comment"]++
+		if isBlock {
+			s.Used["header-comment"]++
+		} else {
+			s.Used["line-comment"]++
+		}
 	}
 	return n
 }
